@@ -29,6 +29,7 @@ type c14Cond struct {
 
 type c14Zone struct {
 	A       []string `json:"a,omitempty"`
+	AAAA    []string `json:"aaaa,omitempty"`
 	Mode    string   `json:"mode"` // ok | nxdomain | servfail | drop
 	DelayMs int      `json:"delay_ms"`
 }
@@ -96,6 +97,23 @@ func genC14(t *tape.Tape, tier string) any {
 			z := c14Zone{Mode: []string{"ok", "nxdomain", "servfail", "drop"}[t.Pick(6, 2, 1, 1)], DelayMs: []int{0, 3, 40, 900}[t.Pick(3, 3, 2, 1)]}
 			if z.Mode == "ok" {
 				z.A = []string{[]string{"10.1.2.3", "10.9.9.9", "192.168.7.44", "172.20.1.1", "8.8.8.8"}[t.Intn(5)]}
+				// IPv6: dnsResolve / isResolvable / isInNet are IPv4-only helpers, so AAAA records must not change them.
+				// (not together with isInNetEx(dnsResolveEx(..)[0]): the order of families in that list is unspecified)
+				hasEx := false
+				for _, cd := range c.Conds {
+					if cd.Fn == "isInNetEx" {
+						hasEx = true
+					}
+				}
+				if !hasEx {
+					switch t.Pick(6, 2, 1) {
+					case 1: // dual stack
+						z.AAAA = []string{"fd00::" + fmt.Sprint(1+t.Intn(9))}
+					case 2: // IPv6 only
+						z.AAAA = []string{"2001:db8::" + fmt.Sprint(1+t.Intn(9))}
+						z.A = nil
+					}
+				}
 			}
 			c.Zone[h] = z
 		}
@@ -303,6 +321,16 @@ func (c *c14Case) serveDNS(env *core.Env, conn *simnet.Conn) {
 			b = b2
 		default:
 			b.StartAnswers()
+			if q.Type == dnsmessage.TypeAAAA {
+				for _, a := range z.AAAA {
+					var a16 [16]byte
+					copy(a16[:], net.ParseIP(a).To16())
+					b.AAAAResource(dnsmessage.ResourceHeader{Name: q.Name, Class: dnsmessage.ClassINET, TTL: 60}, dnsmessage.AAAAResource{AAAA: a16})
+				}
+				if len(z.AAAA) > 0 {
+					env.Probe("dns_aaaa_answered")
+				}
+			}
 			if q.Type == dnsmessage.TypeA {
 				for _, a := range z.A {
 					var a4 [4]byte
